@@ -188,7 +188,11 @@ def oracle(run: runner.Run, oc: Outcome) -> None:
         if len(got) < len(want):
             first_missing = ys[len(got)]
             alive = t_dead is None
-            settled = run.sim.now - first_missing[0] > grace
+            # (an event queued behind slow processing of the same object is not lost: the silence is counted from the
+            # moment the object's worker was last seen busy)
+            busy_now = bool(cs) and cs[-1].t1 is None
+            last_busy = max([first_missing[0]] + [c.t1 for c in cs[-1:] if c.t1 is not None])
+            settled = not busy_now and run.sim.now - last_busy > grace
             if alive and settled and not run.step_capped:
                 oc.add('C01/lost', 'lost-while-alive',
                        f"object {uid}: event {first_missing[2]}@{first_missing[3]} delivered at "
